@@ -1848,6 +1848,8 @@ def make_data(
     ),
     # equality constraints
     "eq_active": wp.array(np.tile(mjm.eq_active0.astype(bool), (nworld, 1)), shape=(nworld, mjm.neq), dtype=bool),
+    # delay / interval history buffers (cursor, past timestamps, interval phase)
+    "history": wp.array(np.tile(mjd.history, (nworld, 1)), shape=(nworld, mjm.nhistory), dtype=float),
     # island arrays
     "nisland": None,
     "tree_island": None,
@@ -2549,6 +2551,62 @@ def reset_data(m: types.Model, d: types.Data, reset: Optional[wp.array] = None):
     overflow_out[worldid] = 0
 
   @wp.kernel(module="unique", enable_backward=False, grid_stride=False)
+  def reset_history(
+    # Model:
+    nu: int,
+    nsensor: int,
+    opt_timestep: wp.array[float],
+    actuator_history: wp.array[wp.vec2i],
+    actuator_historyadr: wp.array[int],
+    sensor_dim: wp.array[int],
+    sensor_history: wp.array[wp.vec2i],
+    sensor_historyadr: wp.array[int],
+    sensor_interval: wp.array[wp.vec2],
+    # In:
+    reset_in: wp.array[bool],
+    # Data out:
+    history_out: wp.array2d[float],
+  ):
+    worldid = wp.tid()
+
+    if wp.static(reset is not None):
+      if not reset_in[worldid]:
+        return
+
+    timestep = opt_timestep[worldid % opt_timestep.shape[0]]
+
+    # same layout as mj_resetData: [user, cursor, times (nsample), values (nsample * dim)]
+    for i in range(nu):
+      nsample = actuator_history[i][0]
+      if nsample > 0:
+        adr = actuator_historyadr[i]
+        history_out[worldid, adr] = 0.0
+        history_out[worldid, adr + 1] = float(nsample - 1)
+        for k in range(nsample):
+          history_out[worldid, adr + 2 + k] = -float(nsample - k) * timestep
+          history_out[worldid, adr + 2 + nsample + k] = 0.0
+
+    for i in range(nsensor):
+      nsample = sensor_history[i][0]
+      if nsample > 0:
+        adr = sensor_historyadr[i]
+        period = sensor_interval[i][0]
+        phase = sensor_interval[i][1]
+        delta = timestep
+        last = -timestep
+        if period > 0.0:
+          delta = period
+          last = -period
+          if phase < 0.0:
+            last = phase
+        history_out[worldid, adr] = last
+        history_out[worldid, adr + 1] = float(nsample - 1)
+        for k in range(nsample):
+          history_out[worldid, adr + 2 + k] = last - float(nsample - 1 - k) * delta
+        for k in range(nsample * sensor_dim[i]):
+          history_out[worldid, adr + 2 + nsample + k] = 0.0
+
+  @wp.kernel(module="unique", enable_backward=False, grid_stride=False)
   def reset_mocap(
     # Model:
     body_mocapid: wp.array[int],
@@ -2696,6 +2754,25 @@ def reset_data(m: types.Model, d: types.Data, reset: Optional[wp.array] = None):
     inputs=[reset_input],
     outputs=[d.M],
   )
+
+  if m.nhistory > 0:
+    wp.launch(
+      reset_history,
+      dim=d.nworld,
+      inputs=[
+        m.nu,
+        m.nsensor,
+        m.opt.timestep,
+        m.actuator_history,
+        m.actuator_historyadr,
+        m.sensor_dim,
+        m.sensor_history,
+        m.sensor_historyadr,
+        m.sensor_interval,
+        reset_input,
+      ],
+      outputs=[d.history],
+    )
 
   # set mocap_pos/quat = body_pos/quat for mocap bodies
   wp.launch(
